@@ -56,6 +56,9 @@ TRUSTED = [
     "augmenting_row_reduction model: float comparisons are an oracle restricted to what finite costs can produce",
 ]
 ASSUMPTIONS = [
+    "KNOWN FINDING F20 (inside the quantifier): memory safety of _lapjv.pyx augment fails on maximally sparse problems with "
+    "forced expensive pairs; C01's generator class `forced-expensive` and corpus/C01/a_f20_sentinel.json are part of C19's "
+    "streams (plain build, ASan build, boundary monitor), each such case fork-isolated; attribution by C01's two model variants",
     "quantifier = the input domains of C01-C08, C10, C15 (their generators); grey_reconstruction with an explicit "
     "non-central offset beyond the padding is outside it (C04 keeps such offsets within the padding)",
     "the in-bounds read of the uninitialised locals j1/j2 in augmenting_row_reduction for single-candidate rows is not a "
@@ -91,9 +94,13 @@ KERNEL_STATUS = {
                   "the pixel loop itself (clamped_fetch, labels/distances/mask reads) is not modelled"),
     "augmenting_row_reduction": ("Full relative to the comparison oracle: C19_arr_full_safe", "kernel_pre_arr", ""),
     "reduction_transfer": ("Full: C19_reduction_transfer_safe", "kernel_pre_rt", ""),
-    "augment": ("Partial, one premise (aug_scan_nonempty): C19_augment_row_safe_partial, C19_augment_none_is_empty_scan (Full), "
+    "augment": ("NOT SAFE AS WRITTEN (known finding F20, C19_augment_scan_nonempty_refuted): the premise ~Starved of "
+                "C19_augment_row_safe_partial is false for some inputs inside the quantifier; proved: an empty rebuild of "
+                "scan is the only way it leaves its arrays (C19_augment_none_is_empty_scan, Full), "
                 "C19_augment_final_loop_safe_partial; C01's pred-chain / flip / fuel theorems re-exported",
-                "kernel_pre_augment", "that every rebuild of scan finds a column (has_PM + adequacy of inf)"),
+                "kernel_pre_augment (true on the F20 witness: the defect is not a caller-side precondition)",
+                "F20 class: run fork-isolated; crash / ASan report in augment on an input where C01's sentinel model "
+                "starves is attributed to F20, anything else is a VIOLATION"),
     "_all_connected_components": ("Full: C19_all_connected_components_safe", "kernel_pre_acc", ""),
     "fill_labeled_holes_loop": ("Full: C19_fill_labeled_holes_loop_safe", "kernel_pre_fill", ""),
     "trace_outlines": ("Full: C19_trace_outlines_safe", "kernel_pre_trace", ""),
@@ -501,6 +508,10 @@ def _owner_cases(ctx, name, want, tier):
     k = max(1, want // 5)
     pick = set(order[:k].tolist()) | set(order[-k:].tolist())          # extremes: smallest / largest inputs
     pick |= set(range(min(n, k)))                                      # the owner's corpus / edge cases come first
+    if name == "c01":       # finding F20: every case of the class (sentinel model starves), and a share of the generator
+        f20 = [i for i, c in enumerate(cases) if isinstance(c, dict) and c.get("f20")]         # class that reaches it
+        fx = [i for i, c in enumerate(cases) if isinstance(c, dict) and c.get("pat") == "forced-expensive"]
+        pick |= set(f20[:40]) | set(fx[:: max(1, len(fx) // 40)][:40])
     rest = [i for i in range(n) if i not in pick]
     extra = ctx.rng.choice(len(rest), size=max(0, min(len(rest), want - len(pick))), replace=False)
     pick |= set(rest[int(i)] for i in extra)
@@ -647,6 +658,68 @@ def _own_impl(c):
     return "ok"
 
 
+def _forked_rec(fn, arg, limit=25):
+    """fn(arg) in a forked child WITH the kernel spy recording there: a crash (signal / ASan exit) or a hang of the
+    implementation becomes an outcome of this case (finding F20: undefined behaviour after an empty rebuild of scan)"""
+    import select
+    import signal
+    rd, wr = os.pipe()
+    pid = os.fork()
+    if pid == 0:
+        try:
+            os.close(rd)
+            _Rec.calls, _Rec.counts = [], {}
+            st = "ok"
+            try:
+                o = fn(arg)
+                if isinstance(o, dict) and "exc" in o:
+                    st = "exc:" + str(o["exc"])
+            except BaseException as e:      # noqa
+                st = "exc:" + type(e).__name__
+            data = json.dumps({"status": st, "calls": _Rec.calls, "counts": _Rec.counts}).encode()
+            while data:
+                k = os.write(wr, data)
+                data = data[k:]
+        finally:
+            os._exit(0)
+    os.close(wr)
+    buf = b""
+    t_end = time.time() + limit
+    hang = False
+    while True:
+        left = t_end - time.time()
+        ready, _, _ = select.select([rd], [], [], max(0.0, left))
+        if not ready:
+            os.kill(pid, signal.SIGKILL)
+            hang = True
+            break
+        chunk = os.read(rd, 1 << 16)
+        if not chunk:
+            break
+        buf += chunk
+    os.close(rd)
+    _, status = os.waitpid(pid, 0)
+    if buf and not hang:
+        try:
+            return json.loads(buf.decode())
+        except ValueError:
+            pass
+    sig = status & 0x7f
+    what = ("hang (killed after %d s)" % limit) if hang else ("signal %d" % sig) if sig else "exit %d without a result" % (status >> 8)
+    detail = ""
+    m = [x for x in os.environ.get("ASAN_OPTIONS", "").split(":") if x.startswith("log_path=")]
+    if m:
+        lp = m[0][len("log_path="):] + ".%d" % pid
+        if os.path.exists(lp):
+            with open(lp) as f:
+                txt = f.read()
+            os.remove(lp)
+            head = [l.strip() for l in txt.splitlines() if "ERROR: AddressSanitizer" in l][:1]
+            frames = [l.strip() for l in txt.splitlines() if l.strip().startswith("#")][:6]
+            detail = " | ".join(head + frames)[:900]
+    return {"status": "crash:forked child of lapjv: %s %s" % (what, detail), "calls": [], "counts": {"lapjv(fork-isolated)": 1}}
+
+
 def _owner_impl(name):
     mod = importlib.import_module("harness.props." + name)
     if name == "c04":
@@ -662,6 +735,13 @@ def impl(case):
     try:
         if owner == "own":
             _own_impl(case["case"])
+        elif owner == "c01" and isinstance(case["case"], dict) and case["case"].get("fn") == "lap" and (
+                case["case"].get("f20") or case["case"].get("pat") == "forced-expensive"):
+            # finding F20 class: fork-isolated (a crash is an outcome), the spy records inside the child
+            mod = importlib.import_module("harness.props.c01")
+            r = _forked_rec(mod._impl_lap, case["case"])
+            _Rec.calls, _Rec.counts = None, None
+            return r
         else:
             o = _owner_impl(owner)(case["case"])
             if isinstance(o, dict) and "crash" in o:
@@ -873,6 +953,51 @@ def _crash_text(o):
     return "%s %s" % (o["crash"], head or d.strip()[-300:])
 
 
+F20_ID = "F20/C19"      # known_findings.json lists F20 under property C01 ("also": C19); core filters by property and
+                        # drops duplicate ids, so C19's fragment carries its own id
+
+
+def _is_f20_case(case):
+    return (isinstance(case, dict) and case.get("owner") == "c01" and isinstance(case.get("case"), dict)
+            and case["case"].get("fn") == "lap" and bool(case["case"].get("f20")))
+
+
+def _f20_prefix(case):
+    return ("F20-class input (C01's faithful sentinel model starves in augment, the true-infinity reference model "
+            "returns a matching): ") if _is_f20_case(case) else ""
+
+
+def attribute(ctx, case, out, clause):
+    """F20 iff the input is in the F20 class (flag set by C01's generator from the two model variants) AND the failure is
+    a crash / ASan report of the fork-isolated lapjv call, whose ASan stack - when there is one - lies in augment.
+    Everything else (other kernels, other inputs, a false kernel_pre) stays a VIOLATION."""
+    import re
+    if not (_is_f20_case(case) and isinstance(clause, str) and clause.startswith("F20-class input")):
+        return None
+    if "kernel_pre_" in clause:
+        return None
+    frames = re.findall(r"#\d+ [^|]*", clause)
+    if frames:
+        pyx = [f for f in frames if "_lapjv" in f or "lapjv_" in f]
+        if not pyx or not re.search(r"lapjv_\d+augment(?!ing)", pyx[0]):
+            return None
+    return F20_ID
+
+
+def reproduce_finding(ctx, finding):
+    if finding.get("id") != F20_ID:
+        return False
+    case = {"owner": "c01", "case": finding["witness"]}
+    o = ctx.run_impl([case])[0]
+    if isinstance(o, dict) and ("crash" in o or str(o.get("status", "")).startswith("crash:")):
+        return True
+    try:        # the plain build may return garbage instead of crashing: ask the address-sanitised build
+        a = run_asan(ctx, [case], jobs=1)[0]
+        return _asan_verdict(a) is not None
+    except Exception:       # noqa
+        return False
+
+
 def _asan_verdict(o):
     if o is None:
         return "ASan run produced no result for this case"
@@ -912,7 +1037,8 @@ def check(ctx, cases, outs):
             verdicts[ci] = "C19 harness error in impl: %s %s" % (o["exc"], o.get("msg", ""))
             continue
         if str(o.get("status", "")).startswith("crash:"):
-            verdicts[ci] = "owner impl reports a crashed child: " + o["status"][:300]
+            verdicts[ci] = _f20_prefix(cases[ci]) + "crash in a fork-isolated child (%s build): %s" % (
+                "address-sanitised" if ctx.stage_info.get("asan") else "plain -O2", o["status"][6:900])
             continue
         for k, call in enumerate(o.get("calls", [])):
             if call.get("spy_error"):
@@ -995,7 +1121,7 @@ def check(ctx, cases, outs):
         for i, o in zip(sel, asan_box["outs"]):
             v = _asan_verdict(o)
             if v and verdicts[i] is None:
-                verdicts[i] = v
+                verdicts[i] = _f20_prefix(cases[i]) + v
     else:
         ctx.count("asan_cases", len(cases))
     return verdicts
@@ -1076,8 +1202,9 @@ MANIFEST = {
                    "build over the generators of C01-C08, C10, C15), not proved"),
     "level_note": ("not expressible in the model: malloc/realloc failure, int32 wrap of flat indices beyond 2^31 "
                    "elements, the C++ containers of FastEMD outside the heap, Cython buffer unpacking; not proved: that "
-                   "augment's search always returns (aug_scan_nonempty: needs has_PM and the adequacy of inf = sum(c)+1; "
-                   "the only remaining premise of C19_augment_row_safe_partial), propagate's pixel loop, the reads of "
+                   "augment's search always returns - it is FALSE for the kernel as written: known finding F20 (sentinel "
+                   "inf = sum(c)+1 too small, p_scan[low] read past up, segfault inside the quantifier; "
+                   "C19_augment_scan_nonempty_refuted), propagate's pixel loop, the reads of "
                    "the hull buffer walk; per kernel proved / monitored / ASan-only: coverage.notes of the evidence; "
                    "leaks are observed by repeated calls (mallinfo2 growth), not proved"),
     "technique": "Coq index-safety theorems + run-time boundary monitoring with extracted checkers + ASan search",
